@@ -80,6 +80,18 @@ Section W.
         rewrite (bij_ok_of_bij s (proj1 G)). reflexivity.
   Qed.
 
+  Lemma w_step_exn w x :
+    winv w ->
+    let y := w_step split split_s ncname w x in
+    exn_ok split split_s (w_p2n (fst y)) (w_n2p (fst y)) (wop_op x) (snd y) = true.
+  Proof.
+    intros [Hb Hm]. destruct x as [i o|binds]; cbn [w_step wop_op]; [|reflexivity].
+    destruct (nth_error (w_mgrs w) (N.to_nat i)) as [g|] eqn:E; [|destruct o; reflexivity].
+    assert (Hg : goodF (assemble w g)).
+    { split; [exact Hb|]. rewrite Forall_forall in Hm. apply Hm. eapply nth_error_In; eauto. }
+    exact (m_step_exn split split_s ncname false (assemble w g) o Hg).
+  Qed.
+
   Lemma w_step_length w x :
     length (w_mgrs (fst (w_step split split_s ncname w x))) =
     match x with WOp _ _ => length (w_mgrs w) | WNew _ => S (length (w_mgrs w)) end.
@@ -93,7 +105,7 @@ Section W.
     wf_from (length (w_mgrs w)) ops = true ->
     w_stale split split_s ncname w ops = false ->
     (forall x, In x ops -> op_exact split split_s (wop_op x)) ->
-    all_ok (map wop_op ops) (w_run split split_s ncname w ops) = true.
+    all_ok split split_s (map wop_op ops) (w_run split split_s ncname w ops) = true.
   Proof.
     induction ops as [|x r IH]; intros w Hw Hf Hs Hx; cbn [w_run w_stale map all_ok] in *; auto.
     apply orb_false_iff in Hs. destruct Hs as [H1 H2]. apply negb_false_iff in H1.
@@ -103,7 +115,9 @@ Section W.
       - apply andb_true_iff in Hf. destruct Hf as [F1 F2]. apply Nat.ltb_lt in F1. auto.
       - auto. }
     destruct R as [R1 R2].
-    rewrite (S R1 H1 (Hx x (or_introl eq_refl))). cbn [andb].
+    unfold snap_ok2. rewrite (S R1 H1 (Hx x (or_introl eq_refl))).
+    pose proof (w_step_exn w x Hw) as X. cbn zeta in X. unfold w_snap. cbn [s_list s_rev s_res].
+    rewrite X. cbn [andb].
     apply IH; auto. intros y Hy. apply Hx. now right.
   Qed.
 
